@@ -65,3 +65,23 @@ def measure(fn, budget=None):
         mon.set_events(TOOL, 0)
         _State.budget = None
     return _State.count, res, exc, exceeded
+
+
+def measure_mem(fn, budget=None):
+    """like measure(), and additionally the peak number of bytes allocated (above the level at entry) during the call,
+    taken from tracemalloc.  LINE events do not see work done inside ONE C-level operation (`'1' * n`, bitarray(n bits),
+    a copy of an n-bit prefix); allocating and filling N bytes is at least N units of work, so the peak is a second,
+    equally deterministic, lower bound on the work (garbage of earlier calls that is freed during this one can only lower it).  returns (steps, peak_bytes, result, exception, exceeded)"""
+    import tracemalloc
+    started = not tracemalloc.is_tracing()
+    if started:
+        tracemalloc.start(1)
+    base = tracemalloc.get_traced_memory()[0]
+    tracemalloc.reset_peak()
+    try:
+        st, res, exc, exceeded = measure(fn, budget)
+        peak = tracemalloc.get_traced_memory()[1] - base
+    finally:
+        if started:
+            tracemalloc.stop()
+    return st, max(0, peak), res, exc, exceeded
